@@ -49,7 +49,7 @@ def value_for(kind, hint):
         return datetime.date(2020, 1, 2)
     if kind == "uuid":
         return uuid.UUID("12345678-1234-5678-1234-567812345678")
-    if kind == "list":
+    if kind in ("list", "listform"):
         return ["x", "y"]
     if kind == "enum":
         e = find_enum(hint)
